@@ -249,6 +249,12 @@ func (t *translator) stmts(list []ast.Stmt, next func() string, cont, brk string
 		return "(let " + t.spec.evVar + " := " + t.spec.evVar + " ++ [" + strconv.Quote(name) + "]; " + tail() + ")"
 	}
 	switch x := st.(type) {
+	case *ast.GoStmt:
+		// a goroutine is started: an event
+		if ev, ok := t.spec.effects["go "+goStr(x.Call)]; ok {
+			return event(ev)
+		}
+		return t.fail("unsupported go statement %s", goStr(x.Call))
 	case *ast.DeferStmt:
 		if t.spec.skipCall != nil && t.spec.skipCall(x.Call) {
 			return tail()
@@ -1468,6 +1474,58 @@ func genDB(repo, out string) {
 			d5 = fmt.Sprintf("/-- UNTRANSLATABLE: %s -/\ndef recoverWals : Unit := ()\n", strings.ReplaceAll(e5.Error(), "-/", "- /"))
 		}
 		sb.WriteString(d5 + "\n")
+	}
+	// Open: the order of recovery and how the oracle is re-seeded
+	{
+		var fd *ast.FuncDecl
+		for _, f := range p.files {
+			for _, d := range f.Decls {
+				if x, ok := d.(*ast.FuncDecl); ok && x.Recv == nil && x.Name.Name == "Open" {
+					fd = x
+				}
+			}
+		}
+		sp := transSpec{
+			leanName: "openDB",
+			binders:  "(validateFails mkdirFails : Bool) (walMax dbMax : Nat) (ev : List (String × Nat))",
+			retType:  "Option (Nat × List (String × Nat))",
+			exprMap: map[string]string{"err != nil": "err", "uint64(max(walMaxVersion, dbMaxVersion))": "(max walMaxVersion dbMaxVersion)",
+				"db.oracle.nextTs": "nextTs"},
+			state: []string{"db.oracle.nextTs", "ev"}, stateLn: []string{"nextTs", "ev"}, evVar: "ev", stateTy: []string{"Nat", "List (String × Nat)"},
+			effects: map[string]string{"os.MkdirAll(dir, config.FileMode)": "os.MkdirAll|0", "mt.recover()": "memtable.recover (wals)|0", "lm.recover()": "levelManager.recover (tables)|0",
+				"db.oracle.readMark.Done(maxTs)": "readMark.Done|maxTs", "db.oracle.commitMark.Done(maxTs)": "commitMark.Done|maxTs", "go db.run()": "go db.run|0"},
+			binds: map[string][][2]string{"config.validate()": {{"err", "validateFails"}}, "os.MkdirAll(dir, config.FileMode)": {{"err", "mkdirFails"}},
+				"newMemtable(dir, config.SkipListMaxLevel, config.SkipListP)": {{"mt", "()"}}, "mt.recover()": {{"walMaxVersion", "walMax"}},
+				"newLevelManager(db)": {{"lm", "()"}}, "lm.recover()": {{"dbMaxVersion", "dbMax"}}},
+			skipStmt: func(st ast.Stmt) bool {
+				s := goStr(st)
+				return strings.HasPrefix(s, "db := &DB{") || s == "db.memtable = mt" || s == "db.manager = lm"
+			},
+			ret: func(vals []string, st []string) string {
+				if vals[0] == "db" {
+					return "some (nextTs, ev)"
+				}
+				return "none"
+			},
+			fallOff:  func(st []string) string { return "some (nextTs, ev)" },
+			panicVal: "none",
+			skipCall: func(c *ast.CallExpr) bool {
+				s := goStr(c.Fun)
+				return strings.HasPrefix(s, "vhook.") || s == "atomic.StoreUint32"
+			},
+		}
+		d := ""
+		err := fmt.Errorf("Open not found")
+		if fd != nil {
+			t := &translator{spec: sp}
+			body := t.stmts(fd.Body.List, func() string { return "some (nextTs, ev)" }, "", "")
+			err = t.err
+			d = fmt.Sprintf("def %s %s : %s :=\n  let nextTs : Nat := 0\n  %s\n", sp.leanName, sp.binders, sp.retType, body)
+		}
+		if err != nil {
+			d = fmt.Sprintf("/-- UNTRANSLATABLE: %s -/\ndef openDB : Unit := ()\n", strings.ReplaceAll(err.Error(), "-/", "- /"))
+		}
+		sb.WriteString(d + "\n")
 	}
 	sb.WriteString("end GenDB\n")
 	if err := os.WriteFile(out, []byte(sb.String()), 0644); err != nil {
